@@ -4,6 +4,7 @@ pub mod c10;
 pub mod c11;
 pub mod c12;
 pub mod c13;
+pub mod c14;
 pub mod c19;
 pub mod hist;
 pub mod mgr;
@@ -22,6 +23,7 @@ pub fn all_arms() -> Vec<Box<dyn Arm>> {
     v.push(Box::new(mgr::MgrArm { id: "C15" }));
     v.push(Box::new(mgr::MgrArm { id: "C16" }));
     v.push(Box::new(c19::C19));
+    v.push(Box::new(c14::C14));
     v
 }
 
